@@ -2,7 +2,7 @@
     every DeliverTx) and the property predicate [Pb] on the observed trace itself. *)
 From Coq Require Import List Bool Arith ZArith String.
 Import ListNotations.
-Require Import Nib.C15.Model Nib.C15.Spec.
+Require Import Nib.C17.MsgTree Nib.C15.Model Nib.C15.Spec.
 Local Open Scope Z_scope.
 
 (** Snapshots arrive in compact form: the tracked keys once per case, then value lists aligned
@@ -19,16 +19,19 @@ Definition raw_wf (k : keys) (r : raw) : bool :=
   (List.length (fst (fst r)) =? List.length (fst k))%nat && (List.length (snd (fst r)) =? List.length (snd k))%nat &&
   (List.length (snd r) =? List.length (fst k))%nat.
 
-(** blocked accounts (BankKeeper.BlockedAddr), keys, initial snapshot, then per tx (messages, accepted?, snapshot after) *)
+(** blocked accounts (BankKeeper.BlockedAddr), keys, initial snapshot and grants, then per tx (message trees,
+    accepted?, snapshot after, authz grants after) *)
 (** [gen]: the admins the genesis section of the case states (denom, admin; "" = renounced) — the
     import must install exactly these *)
-Definition case : Type := list string * list (string * option string) * keys * raw * list (list op * bool * raw).
+Definition case : Type :=
+  list string * list (string * option string) * keys * raw * gst * list (list msg * bool * raw * gst).
 
-Definition trace_of (k : keys) (t : list (list op * bool * raw)) : list (list op * bool * snap) :=
-  map (fun e => (fst (fst e), snd (fst e), mk_snap k (snd e))) t.
+Definition trace_of (k : keys) (t : list (list msg * bool * raw * gst)) : list (list msg * bool * snap * gst) :=
+  map (fun e => let '(tx, ok, r, G) := e in (tx, ok, mk_snap k r, G)) t.
 
 Definition case_wf (c : case) : bool :=
-  let '(_, _, k, r0, t) := c in raw_wf k r0 && forallb (fun e => raw_wf k (snd e)) t.
+  let '(_, _, k, r0, _, t) := c in
+  raw_wf k r0 && forallb (fun e => let '(tx, _, r, _) := e in raw_wf k r && forallb msg_wf tx) t.
 
 Definition init_state (s0 : snap) : st :=
   {| admins := fun d => match lookup d (sn_admin s0) with Some a => a | None => None end;
@@ -42,12 +45,13 @@ Definition snap_of (s : st) (keys : snap) : snap :=
      sn_bal := map (fun e : string * string * Z => (fst (fst e), snd (fst e), bal s (fst (fst e)) (snd (fst e)))) (sn_bal keys);
      sn_admin := map (fun e : string * option string => (fst e, admins s (fst e))) (sn_admin keys) |}.
 
-Fixpoint trace_mismatch (blocked : list string) (s : st) (t : list (list op * bool * snap)) : bool :=
+Fixpoint trace_mismatch (c : wcfg) (blocked : list string) (s : wst) (t : list (list msg * bool * snap * gst)) : bool :=
   match t with
   | [] => false
-  | (o, ok, cur) :: r =>
-      let '(s', mok) := deliver_tx blocked s o in
-      negb (Bool.eqb mok ok) || negb (snap_eqb (snap_of s' cur) cur) || trace_mismatch blocked s' r
+  | (tx, ok, cur, G) :: r =>
+      let '(s', mok) := deliver_ttx c harness_world blocked s tx in
+      negb (Bool.eqb mok ok) || negb (snap_eqb (snap_of (tf s') cur) cur) || negb (gst_same (gr s') G) ||
+      trace_mismatch c blocked s' r
   end.
 
 (** genesis import installs the stated admin of every genesis denom *)
@@ -55,15 +59,18 @@ Definition genesis_ok (gen : list (string * option string)) (s0 : snap) : bool :
   forallb (fun e : string * option string =>
              match lookup (fst e) (sn_admin s0) with Some a => opt_str_eqb a (snd e) | None => false end) gen.
 
-Definition mismatch (c : case) : bool :=
-  let '(blocked, gen, k, r0, t) := c in
-  negb (case_wf c) || negb (genesis_ok gen (mk_snap k r0)) ||
-  trace_mismatch blocked (init_state (mk_snap k r0)) (trace_of k t).
+(** [c]: what the generated facts say about the contract message handler (Current.v) *)
+Definition mismatch (c : wcfg) (cs : case) : bool :=
+  let '(blocked, gen, k, r0, G0, t) := cs in
+  negb (case_wf cs) || negb (genesis_ok gen (mk_snap k r0)) ||
+  trace_mismatch c blocked {| tf := init_state (mk_snap k r0); gr := G0 |} (trace_of k t).
 
 (** the property as the implementation realises it (MsgBurnNative may burn the signer's own coins
     of any denom) … *)
-Definition violates (c : case) : bool :=
-  let '(bl, gen, k, r0, t) := c in negb (genesis_ok gen (mk_snap k r0) && Pb false bl (mk_snap k r0) (trace_of k t)).
+Definition violates (cs : case) : bool :=
+  let '(bl, gen, k, r0, G0, t) := cs in
+  negb (genesis_ok gen (mk_snap k r0) && Pbt false bl harness_world (mk_snap k r0) G0 (trace_of k t)).
 (** … and to the letter (a tf supply moves only by its admin's Mint / Burn) *)
-Definition violates_strict (c : case) : bool :=
-  let '(bl, gen, k, r0, t) := c in negb (genesis_ok gen (mk_snap k r0) && Pb true bl (mk_snap k r0) (trace_of k t)).
+Definition violates_strict (cs : case) : bool :=
+  let '(bl, gen, k, r0, G0, t) := cs in
+  negb (genesis_ok gen (mk_snap k r0) && Pbt true bl harness_world (mk_snap k r0) G0 (trace_of k t)).
